@@ -323,6 +323,21 @@ fn check_spellings(t: &mut Tape, ctx: &Ctx) -> Outcome {
             Some(x) => x,
             None => return Outcome::fail("panic", "variant panicked".into(), case),
         };
+        // the same lines read from a file (optional blanks in front of the line number included)
+        // give the same stored program
+        {
+            let mut l = basic::mach::Listing::default();
+            for text in &texts {
+                let lead = *t.pick(&["", "", " ", "  ", "\t"]);
+                if let Err(e) = l.load_str(&format!("{}{}", lead, text)) {
+                    return Outcome::fail("spelling-rejected", format!("the loader refuses {:?}{:?}: {}", lead, text, e), case);
+                }
+            }
+            let loaded: Vec<String> = l.lines().map(|x| x.to_string()).collect();
+            if loaded != got.0 {
+                return Outcome::fail("spelling-changes-listing", format!("typed, the program lists as {:?}; loaded from a file as {:?}", got.0, loaded), case);
+            }
+        }
         if tight && got.0 != canon {
             let mut diff = String::new();
             for (a, b) in got.0.iter().zip(canon.iter()) {
